@@ -57,4 +57,49 @@ def iter {β : Type} (f : β → β) : Nat → β → β
 def serial (sem : Sem P S A) (counts : List Nat) (g : Global P S A) : Global P S A :=
   exec sem (counts.zipIdx.flatMap (fun (c, i) => List.replicate c i)) g
 
+
+/-! ## Event level: assignment of events to streams
+
+An event on stream `i` starts with the event boundary (`Stepper::reseed` → `reseed_rng`, zeroed
+track counters; `CoreState::reset`; inserting the primaries) and is then transported to
+completion.  Component type `C` is everything stream `i` owns (core state and stores).  `view`
+is the part of it the transport reads: RNG states, track slots, initializers, counters.  What is
+not in the view (accumulated tallies of calorimeters and diagnostics, the stream's step count)
+may carry over from one event to the next. -/
+
+structure EvSem (P C V R : Type) where
+  /-- event boundary of event `e` on stream `i`; may read the state the previous event left -/
+  begin : P → Nat → Nat → C → C
+  /-- transport to completion: the event's result (its step stream) and the state left behind -/
+  run : P → Nat → C → R × C
+  view : C → V
+  /-- what the boundary makes of the view: a function of parameters and event id only
+      (`reseed_rng`: `init seed (event * size + slot)`, C13) -/
+  fresh : P → Nat → V
+
+/-- the isolation contract the C++ is tested against (tools/checks/c07.py, fresh-stream
+    reference): the boundary overwrites the whole view, and the result reads nothing else —
+    not the stream id, not the rest of the component -/
+structure EvSem.Isolated {P C V R : Type} (ev : EvSem P C V R) : Prop where
+  begin_view : ∀ p i e c, ev.view (ev.begin p i e c) = ev.fresh p e
+  run_view : ∀ p i j c c', ev.view c = ev.view c' → (ev.run p i c).1 = (ev.run p j c').1
+
+variable {C V R : Type}
+
+/-- run event `a.2` on stream `a.1` -/
+def evStep (ev : EvSem P C V R) (p : P) (comp : Nat → C) (a : Nat × Nat) : (Nat → C) × R :=
+  let r := ev.run p a.1 (ev.begin p a.1 a.2 (comp a.1))
+  (update comp a.1 r.2, r.1)
+
+/-- run an assignment: (stream, event) pairs, each stream taking its events in list order
+    (by `any_interleaving_equals_serial` the interleaving of the streams' steps is immaterial);
+    the log pairs every event with its result -/
+def evExec (ev : EvSem P C V R) (p : P) : List (Nat × Nat) → (Nat → C) → List (Nat × R)
+  | [], _ => []
+  | a :: l, comp => (a.2, (evStep ev p comp a).2) :: evExec ev p l (evStep ev p comp a).1
+
+/-- the reference: event `e` alone on stream 0 starting from component `c0` -/
+def evRef (ev : EvSem P C V R) (p : P) (c0 : C) (e : Nat) : R :=
+  (ev.run p 0 (ev.begin p 0 e c0)).1
+
 end CelerVerif.Streams
